@@ -1,4 +1,301 @@
-import Blue.Proofs.LogDamage
+import Blue.Proofs.SstOpen
+import Blue.Proofs.Damage
+import Blue.Proofs.DamageExamples
 import Blue.Proofs.LogTrunc
-/-! Property C09: the theorems the check builds and audits (spike inventory; the build phase
-    completes the list from DESIGN Appendix C.0). -/
+import Blue.Proofs.LogAny
+import Blue.Proofs.LogDamage
+import Blue.Proofs.ManiTorn
+import Blue.Proofs.BlockBytes
+import Blue.Proofs.Crc32c
+import Blue.Proofs.ConstsTieC09
+import Blue.Proofs.ConstsTieC10
+import Blue.Proofs.ConstsTieC12
+import Blue.Proofs.ConstsTieC13
+/-! # Property C09 — damage to persistent files is detected or harmless, never silent, never a
+    panic, never an unbounded allocation
+
+Property theorems only.  Models: `Blue/Model/SstOpen.lean` (an SST opened and read from *arbitrary
+bytes*: trailer, `FinalBlock` / `BlockMetadata` / `SstEntry` unpacked by the derive-macro interpreter
+of C15, sanity and ordering checks, CRC check on every block load, `Block::new`, the cursor with
+lazily loaded blocks), `Blue/Model/Log.lean` + `Blue/Model/Damage.lean` (the log reader and
+`log_to_builder` / `log_to_setsum` on top of it), `Blue/Model/Mani.lean` + `Blue/Model/Damage.lean`
+(`ManifestIterator` item by item, `Manifest::open`).  The driver executes exactly these definitions
+with CRC-32C computed in Lean, on the very bytes the real code is given (`bin/check C09`: every
+single-bit flip, every truncation, overwrites, suffixes, short sequences).
+
+**What is theorem and what is assumption.**
+
+* *By construction*: every reader of the model is a total function into an error-or-value type.
+  "Never panics, never allocates without bound" is a property of the code that only the
+  correspondence run transfers (each damaged file is read by the real code in a child process under
+  an address-space limit, the largest allocation request of each read is recorded); the model adds
+  `open_sizes_bounded`: the buffers `from_file_handle` sizes from file bytes are checked against the
+  file size first.
+* *Theorems, no assumption*: every entry any SST read returns comes from a block whose payload
+  matched the CRC recorded for it (`sst_reads_are_guarded`, `open_guarded`); log reads before a damage
+  point are unchanged, a frame failing its CRC is an error, a truncated log / manifest reads as a
+  prefix or an error; the classification of damage to the unchecksummed tail (`final_block_cases`);
+  damage confined to the data blocks leaves the open as it was (`data_block_damage_opens`).
+* *Relative to "the CRC tells the damaged payload from the original"* (hypothesis `hnc` of
+  `refines_of_no_collision`, `NoCollision` of `torn_manifest`): every read of a table damaged behind
+  its checksums is an error or the pristine answer (`sst_single_burst`).  No theorem discharges the
+  hypothesis for CRC-32C here.  (For a single flipped bit it is a fact about the polynomial — the
+  difference of the two CRCs is the remainder of a monomial, and the generator has a constant term —
+  and the run observes it at every bit of every file; it is not formalised.)
+* *Not detected, by design of the formats* (findings, see the run's KNOWN-FINDING lines):
+  `final_block_metadata_not_detected` (D-10), `zero_length_is_padding` (D-11). -/
+namespace Blue.Props.C09
+open Blue.SstOpen Blue.Block Blue.Sst
+
+/-! ## constants: the models read hostile bytes with the source's schemas, codes and limits -/
+
+theorem constants_from_source :
+    Err.all.map Err.code = Blue.Generated.sstReadErrorCodes
+    ∧ finalFields.map (fun f => (f.num, Blue.ConstsTie.tyName f.ty))
+        = Blue.Generated.finalBlockFields.zip Blue.Generated.finalBlockTypes
+    ∧ blockMetaFields.map (fun f => (f.num, Blue.ConstsTie.tyName f.ty))
+        = Blue.Generated.blockMetadataFields.zip Blue.Generated.blockMetadataTypes
+    ∧ Blue.Generated.sstTrailerBytes = 8
+    ∧ Blue.Damage.replayPropagatesErrors = decide (Blue.Generated.logReplayUnwraps = 0)
+    ∧ Blue.Generated.maniNonAsciiPoisons = 0 :=
+  ⟨Blue.ConstsTie.c09_error_codes, Blue.ConstsTie.c09_schemas.1, Blue.ConstsTie.c09_schemas.2.1,
+   Blue.ConstsTie.c09_schemas.2.2.2, Blue.ConstsTie.c09_replay_propagates,
+   Blue.ConstsTie.c09_mani_non_ascii_does_not_poison⟩
+
+/-! ## SST -/
+
+/-- **every read is guarded** (any checksum function, any bytes): each entry of a forward or
+    backward walk — up to its end or its error — each value or tombstone `load` returns and the
+    first and last key of `metadata` lie in a data block that an index entry names and whose payload
+    matched the CRC recorded in that entry.  `setsum`, `smallest_timestamp`, `biggest_timestamp` are
+    the final block's own fields, which no CRC covers. -/
+theorem sst_reads_are_guarded (crc : List Nat → Nat) (t : Opened) :
+    (∀ e ∈ (t.forward crc).1, GuardedEntry crc t e)
+    ∧ (∀ e ∈ (t.backward crc).1, GuardedEntry crc t e)
+    ∧ (∀ k ts r, t.load crc k ts = .ok r →
+        r = .absent ∨ ∃ e, GuardedEntry crc t e ∧ e.key = k
+          ∧ ((∃ v, e.val = some v ∧ r = .value v) ∨ (e.val = none ∧ r = .tombstone)))
+    ∧ (∀ m, t.metadata crc = .ok m →
+        (m.firstKey = [] ∨ ∃ e, GuardedEntry crc t e ∧ m.firstKey = e.key)
+        ∧ (m.lastKey = MAX_KEY ∨ ∃ e, GuardedEntry crc t e ∧ m.lastKey = e.key)
+        ∧ m.setsum = t.fin.setsum ∧ m.smallest = t.fin.smallest ∧ m.biggest = t.fin.biggest
+        ∧ m.fileSize = t.fileSize) :=
+  Blue.SstOpen.sst_reads_are_guarded crc t
+
+/-- … and the index entries themselves: a successful open read the trailer and the final block
+    inside the file, found the two triples ordered below the final block offset, **the index block's
+    payload matched the CRC recorded in the final block**, and so did the filter block's -/
+theorem open_guarded (crc : List Nat → Nat) (file : List Nat) (t : Opened) (h : openSst crc file = .ok t) :
+    t.file = file ∧ t.fileSize = file.length ∧ 8 ≤ file.length
+    ∧ unle64 (file.drop (file.length - 8)) ≤ file.length
+    ∧ decFinal (file.drop (unle64 (file.drop (file.length - 8)))) = some t.fin
+    ∧ finChecks t.fin (unle64 (file.drop (file.length - 8))) = none
+    ∧ (∃ ies, loadBlock crc file t.fin.index = .ok ies ∧ indexEntries ies = .ok t.entries)
+    ∧ loadFilter crc file t.fin.filter = .ok () :=
+  Blue.SstOpen.open_guarded crc file t h
+
+/-- a block that loads is the `PlainBlock` frame at `[start, limit)` with a payload whose CRC is the
+    recorded one -/
+theorem block_load_is_checked (crc : List Nat → Nat) (file : List Nat) (m : BlockMeta) (es : List KV)
+    (h : loadBlock crc file m = .ok es) :
+    ∃ body, frameAt file m = .ok (0, body) ∧ crc body = m.crc ∧ decodePlain body = .ok es :=
+  Blue.SstOpen.loadBlock_ok crc h
+
+/-- allocation: the buffers sized from the file's own bytes before any checksum can be looked at
+    (final block, index block, filter block) are no longer than the file -/
+theorem open_sizes_bounded (file : List Nat) (fin : Fin)
+    (hfbo : unle64 (file.drop (file.length - 8)) ≤ file.length)
+    (hchk : finChecks fin (unle64 (file.drop (file.length - 8))) = none) :
+    file.length - unle64 (file.drop (file.length - 8)) ≤ file.length
+    ∧ fin.index.limit - fin.index.start ≤ file.length
+    ∧ fin.filter.limit - fin.filter.start ≤ file.length :=
+  Blue.SstOpen.open_sizes_bounded file fin hfbo hchk
+
+/-- **detection relative to the checksum, one block**: the same index entry read from the pristine
+    and from the damaged file.  If the damaged read succeeds at all, and the CRC tells the two
+    payloads apart unless they are equal, it returns the pristine entries. -/
+theorem block_damage_detected (crc : List Nat → Nat) (f f' : List Nat) (m : BlockMeta) (es es' : List KV)
+    (h : loadBlock crc f m = .ok es) (h' : loadBlock crc f' m = .ok es')
+    (hnc : ∀ b b', frameAt f m = .ok (0, b) → frameAt f' m = .ok (0, b') → crc b = crc b' → b = b') : es' = es :=
+  Blue.SstOpen.loadBlock_detects crc h h' hnc
+
+/-- the assumption in the form the table theorem uses it: same index entries, a pristine table whose
+    blocks all load, and a CRC that tells each damaged payload from the original ⇒ the damaged
+    table's loader agrees with the pristine one wherever it succeeds -/
+theorem refines_of_no_collision (crc : List Nat → Nat) (t t' : Opened) (hent : t'.entries = t.entries)
+    (hp : ∀ (i : Nat) k m, t.entries[i]? = some (k, m) → ∃ es, loadBlock crc t.file m = .ok es)
+    (hnc : ∀ (i : Nat) k m b b', t.entries[i]? = some (k, m) → frameAt t.file m = .ok (0, b) →
+      frameAt t'.file m = .ok (0, b') → crc b = crc b' → b = b') :
+    Refines (t'.loadIdx crc) (t.loadIdx crc) :=
+  Blue.SstOpen.refines_of_no_collision crc t t' hent hp hnc
+
+/-- **sst_single_burst** (relative to the CRC assumption, which enters as `hr`): damage of any shape
+    behind the checksums — same index entries, same length.  On the damaged table a walk that ends
+    without error *is* the pristine walk, a walk that ends in an error delivered a prefix of it,
+    every `load` that succeeds is the pristine answer, a `metadata` that succeeds has the pristine
+    first and last key. -/
+theorem sst_single_burst (crc : List Nat → Nat) (t t' : Opened) (hent : t'.entries = t.entries)
+    (hlen : t'.file.length = t.file.length) (hr : Refines (t'.loadIdx crc) (t.loadIdx crc)) :
+    ((t'.forward crc).2 = none → t'.forward crc = t.forward crc)
+    ∧ (∃ more, (t.forward crc).1 = (t'.forward crc).1 ++ more)
+    ∧ ((t'.backward crc).2 = none → t'.backward crc = t.backward crc)
+    ∧ (∃ more, (t.backward crc).1 = (t'.backward crc).1 ++ more)
+    ∧ (∀ k ts r, t'.load crc k ts = .ok r → t.load crc k ts = .ok r)
+    ∧ (∀ m', t'.metadata crc = .ok m' → ∃ m, t.metadata crc = .ok m ∧ m'.firstKey = m.firstKey ∧ m'.lastKey = m.lastKey) :=
+  Blue.SstOpen.sst_single_burst crc t t' hent hlen hr
+
+/-- the first premise of `sst_single_burst` is a theorem for damage inside the data blocks: any
+    number of bit flips and byte overwrites below the index block leave the open as it was -/
+theorem data_block_damage_opens (crc : List Nat → Nat) (f : List Nat) (t : Opened)
+    (h : openSst crc f = .ok t) (a : Nat) (ha : a ≤ t.fin.index.start) (ha8 : a + 8 ≤ f.length)
+    (ds : List Blue.Damage.Dmg) (hds : ∀ d ∈ ds, d.Below a) :
+    openSst crc (Blue.Damage.applyAll f ds) = .ok { t with file := Blue.Damage.applyAll f ds } :=
+  Blue.Damage.data_block_damage_opens crc f t h a ha ha8 ds hds
+
+/-- **final_block_cases**: the decidable classification (`classifyFinal`: run the open, compare the
+    index triple) of *any* replacement of the file's tail — final block, trailer, other length —
+    while the first `a` bytes (index block and data blocks) stay: rejected; or the same index
+    entries and the same data blocks, so that only `setsum` / `smallest_timestamp` /
+    `biggest_timestamp` / the file size can differ; or a different index triple whose payload
+    matches the CRC that very triple records (excluded only by the CRC assumption). -/
+theorem final_block_cases (crc : List Nat → Nat) (f f' : List Nat) (t : Opened) (h : openSst crc f = .ok t)
+    (a : Nat) (ha : a ≤ f.length) (ha' : a ≤ f'.length) (hhead : ∀ i, i < a → f'[i]? = f[i]?)
+    (hidx : t.fin.index.limit ≤ a) (hdata : ∀ km ∈ t.entries, km.2.limit ≤ a) :
+    match classifyFinal crc t f' with
+    | .detected e => openSst crc f' = .error e
+    | .metaOnly => ∃ t', openSst crc f' = .ok t' ∧ t'.fin.index = t.fin.index ∧ t'.entries = t.entries
+        ∧ ∀ i, t'.loadIdx crc i = t.loadIdx crc i
+    | .redirected => ∃ t', openSst crc f' = .ok t' ∧ t'.fin.index ≠ t.fin.index
+        ∧ ∃ body, frameAt f' t'.fin.index = .ok (0, body) ∧ crc body = t'.fin.index.crc :=
+  Blue.SstOpen.final_block_cases crc f f' t h a ha ha' hhead hidx hdata
+
+/-- in the `metaOnly` case (same length) every walk and point read is the pristine one and
+    `metadata` is the pristine one with the damaged final block's three fields put in -/
+theorem meta_only_reads (crc : List Nat → Nat) (t t' : Opened) (hent : t'.entries = t.entries)
+    (hlen : t'.file.length = t.file.length) (hload : ∀ i, t'.loadIdx crc i = t.loadIdx crc i) :
+    t'.forward crc = t.forward crc ∧ t'.backward crc = t.backward crc
+    ∧ (∀ k ts, t'.load crc k ts = t.load crc k ts)
+    ∧ t'.metadata crc = (match t.metadata crc with
+        | .error e => .error e
+        | .ok m => .ok { m with setsum := t'.fin.setsum, smallest := t'.fin.smallest, biggest := t'.fin.biggest,
+                                fileSize := t'.fileSize }) :=
+  Blue.SstOpen.meta_only_reads crc t t' hent hlen hload
+
+/-- **D-10, on the bytes of a real SST** (kernel evaluation): one flipped bit of the final block's
+    setsum — the file opens, is classified `metaOnly`, all 20 entries walk as before, and `metadata`
+    returns the changed setsum with every other field unchanged -/
+theorem final_block_metadata_not_detected : Blue.DamageExamples.d10Check = true :=
+  Blue.DamageExamples.d10_witness
+
+/-- non-vacuity of `sst_single_burst` / `data_block_damage_opens` on the same file: one flipped bit
+    in a data block — same index entries, the forward walk fails at once with `crc32c-failure`, the
+    backward walk delivers a proper prefix of the pristine one and then fails -/
+theorem data_block_flip_is_detected : Blue.DamageExamples.burstCheck = true :=
+  Blue.DamageExamples.burst_witness
+
+/-- a block a builder sealed decodes to its entries (C10) — the eager decode the model uses for a
+    payload that matched its CRC is exact on every such block -/
+theorem sealed_bytes_decode (o : Opts) (es : List KV) (hwf : ∀ e ∈ es, e.Wf) (hfit : Fits (build o es)) :
+    ∃ blk, Blk.new (build o es).seal = .ok blk ∧ blk.toDBlock = some ⟨es, (buildG o es).ridx⟩ :=
+  toDBlock_seal o es hwf hfit
+
+/-- totality of the SST reader (by construction; stated for the record) -/
+theorem sst_open_total (crc : List Nat → Nat) (file : List Nat) :
+    (∃ e, openSst crc file = .error e) ∨ ∃ t, openSst crc file = .ok t :=
+  Blue.SstOpen.openSst_total crc file
+
+/-! ## log -/
+open Blue.Log in
+/-- two files that agree on their first `m` bytes deliver identical batches for every read ending
+    within those bytes: damage, truncation or garbage at offset `m` or later cannot change, reorder
+    or invent an earlier batch -/
+theorem reads_agree_before_damage {P : Params} (hB : 0 < P.B) (f f' : List Nat) (m : Nat)
+    (hsame : f.take m = f'.take m) (fuel off : Nat) (r : List Nat × Nat)
+    (h : nextBatch P f fuel off = .ok r) (hm : r.2 ≤ m) : nextBatch P f' fuel off = .ok r :=
+  Blue.Log.reads_agree_before_damage hB f f' m hsame fuel off r h hm
+
+open Blue.Log in
+/-- **log_frame_guarded**: a frame whose payload does not match its header's CRC is an error, never
+    a batch -/
+theorem crc_mismatch_is_error {P : Params} (file : List Nat) (fuel off : Nat) (hd : Hdr) (off' : Nat)
+    (hh : nextHeader P file fuel off = .ok (hd, off'))
+    (hbad : P.crc (slice file off' hd.size) ≠ hd.crc) : nextFrame P file fuel off = .err :=
+  Blue.Log.crc_mismatch_is_error file fuel off hd off' hh hbad
+
+open Blue.Log in
+/-- a log cut at any byte delivers a prefix of the appended batches and nothing else -/
+theorem truncated_log_prefix {P : Params} (g : Good P) (bufs : List (List Nat)) (n : Nat)
+    (hsz : ∀ b ∈ bufs, b.length ≤ P.tableFull) :
+    ∃ rest, bufs = (readSome P ((writeAll P bufs 0).take n) (bufs.length + 1) 0).1 ++ rest :=
+  Blue.Log.truncated_log_prefix_any g bufs n hsz
+
+open Blue.Log in
+/-- … and for arbitrary bytes: what the cut file delivers, the whole file delivers first -/
+theorem readSome_take_prefix {P : Params} (file : List Nat) (n fuel off : Nat) :
+    ∃ rest, (readSome P file fuel off).1 = (readSome P (file.take n) fuel off).1 ++ rest :=
+  Blue.Log.readSome_take_prefix file n fuel off
+
+open Blue.Log in
+/-- **D-11's mechanism**: a zero where a header length is expected is padding when the next block
+    boundary is at most `HEADER_MAX_SIZE` bytes away — the reader goes on at the boundary whatever
+    lies in between, e.g. a whole small frame whose length byte was overwritten with zero; farther
+    from the boundary the same zero is an error -/
+theorem zero_length_is_padding (P : Params) (file : List Nat) (fuel off : Nat) (h0 : file[off]? = some 0) :
+    nextHeader P file (fuel + 1) off =
+      if trueUp P (off + 1) - (off + 1) > P.H then .err else nextHeader P file fuel (trueUp P (off + 1)) :=
+  Blue.Damage.zero_length_is_padding P file fuel off h0
+
+/-! ## manifest -/
+open Blue.Mani in
+/-- a MANIFEST cut at any byte reads as a corruption error or as a prefix of whole edits
+    (`NoCollision`: no proper prefix of a written line carries that line's CRC) -/
+theorem torn_manifest (crc : List Nat → Nat) (hcrc : CrcOk crc) (es : List Edit) (hok : ∀ e ∈ es, e.Ok)
+    (hnc : ∀ l ∈ linesOf es, l.NoCollision crc) (m f : Nat) :
+    (readEdits crc (f + 2 + (linesOf es).length) ((es.flatMap (encodeEdit crc)).take m) Edit.empty).2 = true
+    ∨ ∃ c, readEdits crc (f + 2 + (linesOf es).length) ((es.flatMap (encodeEdit crc)).take m) Edit.empty
+        = (es.take c, false) :=
+  Blue.Mani.torn_manifest crc hcrc es hok hnc m f
+
+open Blue.Mani in
+/-- **mani_line_guarded**: an item line that is accepted carried the CRC of its own text (the
+    separator line carries none) -/
+theorem mani_line_guarded (crc : List Nat → Nat) (line : List Nat) (h : parseLine crc line ≠ .corrupt)
+    (hs : parseLine crc line ≠ .sep) :
+    ∃ expected, parseHex8 (line.take 8) = some expected ∧ crc (line.drop 8) = expected :=
+  Blue.Damage.item_line_guarded crc line h hs
+
+/-! ## non-vacuity of the hypotheses -/
+
+/-- `Refines`, same entries, same length: satisfied by a table and itself -/
+example (crc : List Nat → Nat) (t : Opened) : Refines (t.loadIdx crc) (t.loadIdx crc) := fun _ _ h => h
+
+/-- `final_block_cases` with `f' = f`: the hypotheses on the first `a` bytes hold trivially -/
+example (f : List Nat) : ∀ i, i < f.length → f[i]? = f[i]? := fun _ _ => rfl
+
+/-- a flip below `a` is `Below a` -/
+example : (Blue.Damage.Dmg.flip 10 0).Below 197 := by show 10 < 197; decide
+
+end Blue.Props.C09
+
+#print axioms Blue.Props.C09.constants_from_source
+#print axioms Blue.Props.C09.sst_reads_are_guarded
+#print axioms Blue.Props.C09.open_guarded
+#print axioms Blue.Props.C09.block_load_is_checked
+#print axioms Blue.Props.C09.open_sizes_bounded
+#print axioms Blue.Props.C09.block_damage_detected
+#print axioms Blue.Props.C09.refines_of_no_collision
+#print axioms Blue.Props.C09.sst_single_burst
+#print axioms Blue.Props.C09.data_block_damage_opens
+#print axioms Blue.Props.C09.final_block_cases
+#print axioms Blue.Props.C09.meta_only_reads
+#print axioms Blue.Props.C09.final_block_metadata_not_detected
+#print axioms Blue.Props.C09.data_block_flip_is_detected
+#print axioms Blue.Props.C09.sealed_bytes_decode
+#print axioms Blue.Props.C09.sst_open_total
+#print axioms Blue.Props.C09.reads_agree_before_damage
+#print axioms Blue.Props.C09.crc_mismatch_is_error
+#print axioms Blue.Props.C09.truncated_log_prefix
+#print axioms Blue.Props.C09.readSome_take_prefix
+#print axioms Blue.Props.C09.zero_length_is_padding
+#print axioms Blue.Props.C09.torn_manifest
+#print axioms Blue.Props.C09.mani_line_guarded
